@@ -312,6 +312,12 @@ func (fx *Facts) valueFacts(v ssa.Value, want Want, depth int, visiting map[ssa.
 			if s.Bottom {
 				continue
 			}
+			if x.Block().Dominates(pred) {
+				// back edge: facts about values of an earlier iteration say nothing about the
+				// same SSA names in the current one — keep feasibility only
+				res = intersect(res, emptySet())
+				continue
+			}
 			s = s.clone()
 			s.addAll(ef)
 			res = intersect(res, s)
@@ -820,26 +826,32 @@ func unspill(ret *ssa.Return, idx int) ssa.Value {
 	return v
 }
 
-// pathFactsTo: the facts on entry to b, split per incoming edge (recursively to the given depth, at most
-// 16 sets): each set is the IN of a predecessor plus its branch condition, so a disjunctive requirement
+// pathFactsTo: the facts on entry to b, split per incoming path: merges are split `depth` levels
+// deep (walking back through single-predecessor chains for free), at most 24 sets; each set is sound
+// (facts that hold on every execution following that suffix of the path), so a disjunctive requirement
 // ("every way of getting here satisfies R1 or R2") can be decided per path instead of on the intersection.
 func (fx *Facts) pathFactsTo(b *ssa.BasicBlock, depth int) []FactSet {
 	in := fx.blockFacts(b.Parent(), 0)[b]
-	if depth <= 0 || len(b.Preds) < 2 || loopHeaderOf(b) == b {
-		return []FactSet{in}
-	}
-	// phis in b make per-edge splitting of values the caller's business (valuePaths); splitting facts is still sound
-	var out []FactSet
-	for _, p := range b.Preds {
-		ef := fx.edgeFacts(p, b, 0)
-		if ef.Bottom {
-			continue
+	budget := 24
+	var rec func(b *ssa.BasicBlock, depth, steps int) []FactSet
+	rec = func(b *ssa.BasicBlock, depth, steps int) []FactSet {
+		cur := fx.blockFacts(b.Parent(), 0)[b]
+		if len(b.Preds) == 0 || steps > 12 || loopHeaderOf(b) == b || (len(b.Preds) > 1 && depth <= 0) {
+			return []FactSet{cur}
 		}
-		// split further through p when p is a pure merge
-		subs := []FactSet{ef}
-		if len(p.Preds) >= 2 && depth > 1 && loopHeaderOf(p) != p {
-			subs = nil
-			for _, pf := range fx.pathFactsTo(p, depth-1) {
+		nd := depth
+		if len(b.Preds) > 1 {
+			nd--
+		}
+		var out []FactSet
+		for _, p := range b.Preds {
+			if b.Dominates(p) {
+				return []FactSet{cur} // back edge
+			}
+			for _, pf := range rec(p, nd, steps+1) {
+				if pf.Bottom {
+					continue
+				}
 				s := pf.clone()
 				if iff, ok := p.Instrs[len(p.Instrs)-1].(*ssa.If); ok && p.Succs[0] != p.Succs[1] {
 					w := WantFalse
@@ -849,17 +861,36 @@ func (fx *Facts) pathFactsTo(b *ssa.BasicBlock, depth int) []FactSet {
 					s.addAll(fx.valueFacts(iff.Cond, w, 0, map[ssa.Value]bool{}))
 				}
 				if !s.Bottom {
-					subs = append(subs, s)
+					out = append(out, s)
 				}
 			}
+			if len(out) > budget {
+				return []FactSet{cur}
+			}
 		}
-		out = append(out, subs...)
-		if len(out) > 16 {
-			return []FactSet{in}
+		if len(out) == 0 {
+			return []FactSet{cur}
 		}
+		return out
 	}
-	if len(out) == 0 {
+	out := rec(b, depth, 0)
+	if len(out) > budget {
 		return []FactSet{in}
 	}
-	return out
+	// every split set must at least contain the dataflow facts of b (they hold on all paths)
+	for i := range out {
+		if !in.Bottom {
+			out[i].addAll(in)
+		}
+	}
+	var res []FactSet
+	for _, s := range out {
+		if !s.Bottom {
+			res = append(res, s)
+		}
+	}
+	if len(res) == 0 {
+		return []FactSet{in}
+	}
+	return res
 }
